@@ -9,6 +9,7 @@ package main
 
 import (
 	"archive/tar"
+	"net/http"
 	"bytes"
 	"crypto/sha256"
 	"encoding/hex"
@@ -38,6 +39,7 @@ type reproVariant struct {
 	Tarball    bool   `json:"tarball"`
 	Reps       int    `json:"reps"` // builds inside the child (in-process repetition)
 	EnvNoise   bool   `json:"env_noise"`
+	SlowArch   string `json:"slow_arch,omitempty"` // HTTP only: requests for this architecture are delayed (controls which architecture finishes last)
 }
 
 type reproCase struct {
@@ -73,6 +75,12 @@ func (reproSuite) Gen(r *Rng, i int, tier string) any {
 	v3 := base
 	v3.Name, v3.GOMAXPROCS, v3.TZ, v3.Umask = "par2", 2, "America/St_Johns", 0o002
 	c.Variants = append(c.Variants, v3)
+	if http && len(c.Img.Archs) >= 2 {
+		va, vb := base, base
+		va.Name, va.SlowArch, va.GOMAXPROCS = "slow-first-arch", c.Img.Archs[0], 4
+		vb.Name, vb.SlowArch, vb.GOMAXPROCS = "slow-last-arch", c.Img.Archs[len(c.Img.Archs)-1], 4
+		c.Variants = append(c.Variants, va, vb)
+	}
 	if http {
 		for _, cm := range []string{"cold", "warm", "offline"} {
 			v := base
@@ -282,6 +290,15 @@ func reproChild(args []string) {
 		o := E2EOpts{Archs: c.Img.Archs, SBOM: c.Img.SBOM, Tarball: v.Tarball}
 		if v.HTTP {
 			o.HTTP = &SynthTransport{Repo: repo}
+			if v.SlowArch != "" {
+				slow := v.SlowArch + "/"
+				o.HTTP.Hook = func(req *http.Request, body []byte) (*http.Response, bool) {
+					if strings.HasPrefix(strings.TrimPrefix(req.URL.Path, "/"), slow) {
+						time.Sleep(120 * time.Millisecond)
+					}
+					return nil, false
+				}
+			}
 		}
 		switch cache {
 		case "cold", "warm":
